@@ -143,6 +143,6 @@ func init() {
 			"map iteration order of multi-key commits: default (sorted) only in this check",
 			"tiny thresholds make rotation, flush and multi-level compaction reachable with 2-5 transactions",
 		},
-		QuickS: 75, ThoroughS: 1500,
+		QuickS: 120, ThoroughS: 1500,
 	}
 }
